@@ -21,37 +21,37 @@ namespace Utv.C14
 /-- what the round trip establishes for one value `x` of declared type `T` and its encoding `j`:
 under the default preferences and under `no_data_loss` the parser returns a value equal to `x`; under the
 strict preferences (first union stage of an enclosing `Optional`) it does so or refuses -/
-structure Good (P : Prims) (T : Ty) (x : Val) (j : Js) : Prop where
+structure Good (P : Prims) (d : Nat) (T : Ty) (x : Val) (j : Js) : Prop where
   enc : encode Cfg.fixed P x = .ok j
-  len : Strong (parse Cfg.fixed P .lenient T j) x
-  nol : Strong (parse Cfg.fixed P .noloss T j) x
-  str : Weak (parse Cfg.fixed P .strict T j) x
+  len : Strong (parse Cfg.fixed P .lenient d T j) x
+  nol : Strong (parse Cfg.fixed P .noloss d T j) x
+  str : Weak (parse Cfg.fixed P .strict d T j) x
   std : x.hasInf = false → j.standard = true
   wf : j.wf = true
   nn : j = .null → x = .none
 
-theorem Good.ofAll {P : Prims} {T : Ty} {x : Val} {j : Js} (enc : encode Cfg.fixed P x = .ok j)
-    (h : ∀ m, Strong (parse Cfg.fixed P m T j) x) (std : x.hasInf = false → j.standard = true)
-    (wf : j.wf = true) (nn : j = .null → x = .none) : Good P T x j :=
+theorem Good.ofAll {P : Prims} {d : Nat} {T : Ty} {x : Val} {j : Js} (enc : encode Cfg.fixed P x = .ok j)
+    (h : ∀ m, Strong (parse Cfg.fixed P m d T j) x) (std : x.hasInf = false → j.standard = true)
+    (wf : j.wf = true) (nn : j = .null → x = .none) : Good P d T x j :=
   ⟨enc, h .lenient, h .noloss, (h .strict).weak, std, wf, nn⟩
 
-theorem Good.mode {P : Prims} {T : Ty} {x : Val} {j : Js} (g : Good P T x j) (m : Mode) :
-    Weak (parse Cfg.fixed P m T j) x := by
+theorem Good.mode {P : Prims} {d : Nat} {T : Ty} {x : Val} {j : Js} (g : Good P d T x j) (m : Mode) :
+    Weak (parse Cfg.fixed P m d T j) x := by
   cases m
   · exact g.len.weak
   · exact g.nol.weak
   · exact g.str
 
-theorem encList_good (P : Prims) (t : Ty)
-    (ih : ∀ x, inDomain Cfg.fixed t x = true → ∃ j, Good P t x j) :
-    ∀ xs : List Val, xs.all (inDomain Cfg.fixed t) = true →
-      ∃ js, encodeList Cfg.fixed P xs = .ok js ∧ All2 (fun x j => inDomain Cfg.fixed t x = true ∧ Good P t x j) xs js
+theorem encList_good (P : Prims) (d : Nat) (t : Ty)
+    (ih : ∀ x, inDomain Cfg.fixed d t x = true → ∃ j, Good P d t x j) :
+    ∀ xs : List Val, xs.all (inDomain Cfg.fixed d t) = true →
+      ∃ js, encodeList Cfg.fixed P xs = .ok js ∧ All2 (fun x j => inDomain Cfg.fixed d t x = true ∧ Good P d t x j) xs js
         ∧ (hasInfList xs = false → standardList js = true) ∧ wfList js = true
   | [], _ => ⟨[], rfl, .nil, fun _ => rfl, rfl⟩
   | x :: xs, h => by
     simp only [List.all_cons, Bool.and_eq_true] at h
     obtain ⟨j, g⟩ := ih x h.1
-    obtain ⟨js, h1, h2, h4, h5⟩ := encList_good P t ih xs h.2
+    obtain ⟨js, h1, h2, h4, h5⟩ := encList_good P d t ih xs h.2
     refine ⟨j :: js, ?_, .cons ⟨h.1, g⟩ h2, ?_, ?_⟩
     · simp [encodeList, g.enc, h1]
     · intro hi
@@ -60,20 +60,21 @@ theorem encList_good (P : Prims) (t : Ty)
     · simp [wfList, g.wf, h5]
 
 /-- a value of a type that is not written as an array/object is not encoded as one -/
-theorem enc_scalar (P : Prims) : (t : Ty) → (x : Val) → (j : Js) → t.arrivesAsContainer = false →
-    inDomain Cfg.fixed t x = true → encode Cfg.fixed P x = .ok j → j.isContainer = false
+theorem enc_scalar (P : Prims) (d : Nat) : (t : Ty) → (x : Val) → (j : Js) → t.arrivesAsContainer = false →
+    inDomain Cfg.fixed d t x = true → encode Cfg.fixed P x = .ok j → j.isContainer = false
   | .optional t, x, j, ht, hd, he => by
     simp only [inDomain, Bool.and_eq_true, Bool.or_eq_true] at hd
     rcases hd.2 with h | h
     · cases x <;> simp at h
       simp [encode] at he; subst he; rfl
-    · exact enc_scalar P t x j (by simpa [Ty.arrivesAsContainer] using ht) h he
+    · exact enc_scalar P d t x j (by simpa [Ty.arrivesAsContainer] using ht) h he
   | .list _, _, _, ht, _, _ => by simp [Ty.arrivesAsContainer] at ht
   | .set _, _, _, ht, _, _ => by simp [Ty.arrivesAsContainer] at ht
   | .tupleVar _, _, _, ht, _, _ => by simp [Ty.arrivesAsContainer] at ht
   | .dict _ _, _, _, ht, _, _ => by simp [Ty.arrivesAsContainer] at ht
   | .tuple _, _, _, ht, _, _ => by simp [Ty.arrivesAsContainer] at ht
-  | .data _, _, _, ht, _, _ => by simp [Ty.arrivesAsContainer] at ht
+  | .data _ _, _, _, ht, _, _ => by simp [Ty.arrivesAsContainer] at ht
+  | .cut, _, _, _, hd, _ => by simp [inDomain] at hd
   | .dec, x, j, _, hd, he => by
     cases x <;> simp [inDomain] at hd
     simp [encode] at he
@@ -111,29 +112,29 @@ theorem enc_scalar (P : Prims) : (t : Ty) → (x : Val) → (j : Js) → t.arriv
   | .uuid, x, j, _, hd, he => by
     cases x <;> simp [inDomain] at hd <;> simp [encode] at he <;> (subst he; rfl)
 
-theorem no_container (P : Prims) (t : Ty) (ht : t.arrivesAsContainer = false) {xs : List Val} {js : List Js}
-    (h : All2 (fun x j => inDomain Cfg.fixed t x = true ∧ Good P t x j) xs js) :
+theorem no_container (P : Prims) (d : Nat) (t : Ty) (ht : t.arrivesAsContainer = false) {xs : List Val} {js : List Js}
+    (h : All2 (fun x j => inDomain Cfg.fixed d t x = true ∧ Good P d t x j) xs js) :
     js.any Js.isContainer = false := by
   induction h with
   | nil => rfl
-  | cons g _ ih => simp [enc_scalar P t _ _ ht g.1 g.2.enc, ih]
+  | cons g _ ih => simp [enc_scalar P d t _ _ ht g.1 g.2.enc, ih]
 
 theorem toNull_strict {j : Js} (h : j ≠ .null) : toNull .strict j = .perr := by
   cases j <;> simp_all [toNull, Mode.noExplicitCast]
 
-theorem parse_optional {P : Prims} {t : Ty} {j : Js} (h : j ≠ .null) (m : Mode) :
-    parse Cfg.fixed P m (.optional t) j =
+theorem parse_optional {P : Prims} {d : Nat} {t : Ty} {j : Js} (h : j ≠ .null) (m : Mode) :
+    parse Cfg.fixed P m d (.optional t) j =
       (match m with
-      | .strict => orElse (parse Cfg.fixed P .strict t j) fun _ => toNull .strict j
-      | .noloss => orElse (parse Cfg.fixed P .strict t j) fun _ => orElse (toNull .strict j) fun _ =>
-          orElse (parse Cfg.fixed P .noloss t j) fun _ => toNull .noloss j
-      | .lenient => orElse (parse Cfg.fixed P .strict t j) fun _ => orElse (toNull .strict j) fun _ =>
-          orElse (parse Cfg.fixed P .noloss t j) fun _ => orElse (toNull .noloss j) fun _ =>
-          orElse (parse Cfg.fixed P .lenient t j) fun _ => toNull .lenient j) := by
+      | .strict => orElse (parse Cfg.fixed P .strict d t j) fun _ => toNull .strict j
+      | .noloss => orElse (parse Cfg.fixed P .strict d t j) fun _ => orElse (toNull .strict j) fun _ =>
+          orElse (parse Cfg.fixed P .noloss d t j) fun _ => toNull .noloss j
+      | .lenient => orElse (parse Cfg.fixed P .strict d t j) fun _ => orElse (toNull .strict j) fun _ =>
+          orElse (parse Cfg.fixed P .noloss d t j) fun _ => orElse (toNull .noloss j) fun _ =>
+          orElse (parse Cfg.fixed P .lenient d t j) fun _ => toNull .lenient j) := by
   cases j <;> first | exact absurd rfl h | (simp only [parse]; cases m <;> rfl)
 
-theorem optional_good {P : Prims} {t : Ty} {x : Val} {j : Js} (g : Good P t x j) (hx : x ≠ .none) :
-    Good P (.optional t) x j := by
+theorem optional_good {P : Prims} {d : Nat} {t : Ty} {x : Val} {j : Js} (g : Good P d t x j) (hx : x ≠ .none) :
+    Good P d (.optional t) x j := by
   have hj : j ≠ .null := fun e => hx (g.nn e)
   have hn := toNull_strict hj
   obtain ⟨yn, hyn, hcn⟩ := g.nol
@@ -151,18 +152,18 @@ theorem optional_good {P : Prims} {t : Ty} {x : Val} {j : Js} (g : Good P t x j)
     · left; simp [orElse, hs, hn]
     · right; exact ⟨y, by simp [orElse, hy], hc⟩
 
-theorem encKVs_good (P : Prims) (k : KeyTy) (t : Ty)
-    (ih : ∀ x, inDomain Cfg.fixed t x = true → ∃ j, Good P t x j) :
-    ∀ kvs : List (Key × Val), kvs.all (fun kv => kv.1.hasTy k && inDomain Cfg.fixed t kv.2) = true →
+theorem encKVs_good (P : Prims) (d : Nat) (k : KeyTy) (t : Ty)
+    (ih : ∀ x, inDomain Cfg.fixed d t x = true → ∃ j, Good P d t x j) :
+    ∀ kvs : List (Key × Val), kvs.all (fun kv => kv.1.hasTy k && inDomain Cfg.fixed d t kv.2) = true →
       ∃ js, encodeKVs Cfg.fixed P kvs = .ok js
-        ∧ All2 (fun kv sj => sj.1 = kv.1.toStr ∧ kv.1.hasTy k = true ∧ Good P t kv.2 sj.2) kvs js
+        ∧ All2 (fun kv sj => sj.1 = kv.1.toStr ∧ kv.1.hasTy k = true ∧ Good P d t kv.2 sj.2) kvs js
         ∧ (hasInfKVs kvs = false → standardKVs js = true) ∧ wfKVs js = true
         ∧ js.map (·.1) = kvs.map (fun kv => kv.1.toStr)
   | [], _ => ⟨[], rfl, .nil, fun _ => rfl, rfl, rfl⟩
   | (key, x) :: kvs, h => by
     simp only [List.all_cons, Bool.and_eq_true] at h
     obtain ⟨j, g⟩ := ih x h.1.2
-    obtain ⟨js, h1, h2, h5, h6, h7⟩ := encKVs_good P k t ih kvs h.2
+    obtain ⟨js, h1, h2, h5, h6, h7⟩ := encKVs_good P d k t ih kvs h.2
     refine ⟨(key.toStr, j) :: js, ?_, .cons ⟨rfl, h.1.1, g⟩ h2, ?_, ?_, ?_⟩
     · simp [encodeKVs, g.enc, h1]
     · intro hi
@@ -188,36 +189,83 @@ theorem wrap_weak {r : Res (List Val)} {xs : List Val} (c : List Val → Val) (h
   · left; simp [hp]
   · right; exact ⟨c ys, by simp [hr], hc ys hcs⟩
 
+theorem inDomainFields_sublist (d : Nat) : ∀ (fs : List (FieldMeta × Ty)) (acc : List (Str × Val)) (vs : List (Str × Val)),
+    inDomainFields Cfg.fixed d acc fs vs = true → (vs.map (·.1)).Sublist (fs.map (·.1.name))
+  | [], acc, vs, h => by
+    cases vs <;> simp [inDomainFields] at h
+    exact List.Sublist.refl _
+  | (f, t) :: fs, acc, vs, h => by
+    unfold inDomainFields at h
+    cases hkind : f.kind with
+    | noOutput =>
+      simp only [hkind] at h
+      exact (inDomainFields_sublist d fs acc vs h).cons _
+    | noInput dflt =>
+      simp only [hkind] at h
+      cases vs with
+      | nil => simp at h
+      | cons v vs =>
+        obtain ⟨n, x⟩ := v
+        simp only [Bool.and_eq_true, beq_iff_eq] at h
+        obtain ⟨⟨hn, _⟩, hr⟩ := h
+        subst hn
+        exact (inDomainFields_sublist d fs _ vs hr).cons₂ _
+    | prop e =>
+      simp only [hkind] at h
+      cases vs with
+      | nil => simp at h
+      | cons v vs =>
+        obtain ⟨n, x⟩ := v
+        simp only [Bool.and_eq_true, beq_iff_eq] at h
+        obtain ⟨⟨hn, _⟩, hr⟩ := h
+        subst hn
+        exact (inDomainFields_sublist d fs _ vs hr).cons₂ _
+    | input req dflt =>
+      simp only [hkind] at h
+      cases vs with
+      | nil =>
+        simp only [Bool.and_eq_true] at h
+        exact (inDomainFields_sublist d fs acc [] h.2).cons _
+      | cons v vs =>
+        obtain ⟨n, x⟩ := v
+        by_cases hn : (n == f.name) = true
+        · simp only [hn, ↓reduceIte, Bool.and_eq_true] at h
+          have e : n = f.name := by simpa using hn
+          subst e
+          exact (inDomainFields_sublist d fs _ vs h.2).cons₂ _
+        · simp only [hn, Bool.false_eq_true, ↓reduceIte, Bool.and_eq_true] at h
+          exact (inDomainFields_sublist d fs acc _ h.2).cons _
+
 mutual
-theorem rt (P : Prims) (hP : PrimLaws P) : (T : Ty) → (x : Val) → inDomain Cfg.fixed T x = true →
-    T.setOfContainers = false → ∃ j, Good P T x j
-  | .none, x, hd, _ => by
+theorem rt (P : Prims) (hP : PrimLaws P) : (T : Ty) → (d : Nat) → (x : Val) → inDomain Cfg.fixed d T x = true →
+    T.setOfContainers = false → ∃ j, Good P d T x j
+  | .none, d, x, hd, _ => by
     cases x <;> simp [inDomain] at hd
     exact ⟨.null, Good.ofAll (by simp [encode]) (fun m => ⟨.none, by simp [parse, toNull], rfl⟩) (fun _ => rfl) rfl (fun _ => rfl)⟩
-  | .bool, x, hd, _ => by
+  | .bool, d, x, hd, _ => by
     cases x <;> simp [inDomain] at hd
     rename_i b
     exact ⟨.bool b, Good.ofAll (by simp [encode]) (fun m => ⟨.bool b, by simp [parse], rfl⟩) (fun _ => rfl) rfl (by simp)⟩
-  | .int, x, hd, _ => by
+  | .int, d, x, hd, _ => by
     cases x <;> simp [inDomain] at hd
     rename_i i
     exact ⟨.int i, Good.ofAll (by simp [encode]) (fun m => ⟨.int i, by simp [parse], rfl⟩) (fun _ => rfl) rfl (by simp)⟩
-  | .float, x, hd, _ => by
+  | .float, d, x, hd, _ => by
     cases x <;> simp [inDomain] at hd
     rename_i f
     refine ⟨.float f, Good.ofAll (by simp [encode]) (fun m => ⟨.float f, by simp [parse], rfl⟩) ?_ rfl (by simp)⟩
     intro hi
     cases f <;> simp_all [Val.hasInf, Js.standard, F.isFinite, F.isNan]
-  | .str, x, hd, _ => by
+  | .str, d, x, hd, _ => by
     cases x <;> simp [inDomain] at hd
     rename_i s
     exact ⟨.str s, Good.ofAll (by simp [encode]) (fun m => ⟨.str s, by simp [parse], rfl⟩) (fun _ => rfl) rfl (by simp)⟩
-  | .bytes, x, hd, _ => by
+  | .bytes, d, x, hd, _ => by
     cases x <;> simp [inDomain] at hd
     rename_i b
     exact ⟨.str (P.utf8Decode b), Good.ofAll (by simp [encode])
       (fun m => ⟨.bytes b, by simp [parse, hP.utf8_rt b hd], rfl⟩) (fun _ => rfl) rfl (by simp)⟩
-  | .dec, x, hd, _ => by
+  | .dec, d, x, hd, _ => by
     cases x <;> simp [inDomain] at hd
     rename_i d
     refine ⟨fromDecimal Cfg.fixed P d, Good.ofAll (by simp [encode]) ?_ ?_ ?_ ?_⟩
@@ -240,32 +288,32 @@ theorem rt (P : Prims) (hP : PrimLaws P) : (T : Ty) → (x : Val) → inDomain C
       cases d <;> simp only [] <;> (repeat' split) <;> rfl
     · unfold fromDecimal
       cases d <;> simp only [] <;> (repeat' split) <;> simp
-  | .date, x, hd, _ => by
+  | .date, d, x, hd, _ => by
     cases x <;> simp [inDomain] at hd
     rename_i d
     exact ⟨.str (isoDate d), Good.ofAll (by simp [encode])
       (fun m => ⟨.date d, by simp [parse, rt_date P hP m d hd], rfl⟩) (fun _ => rfl) rfl (by simp)⟩
-  | .datetime, x, hd, _ => by
+  | .datetime, d, x, hd, _ => by
     cases x <;> simp [inDomain] at hd
     rename_i dt
     exact ⟨.str (isoDateTime dt), Good.ofAll (by simp [encode])
       (fun m => ⟨.datetime dt, by simp [parse, rt_datetime P hP dt hd.1], rfl⟩) (fun _ => rfl) rfl (by simp)⟩
-  | .time, x, hd, _ => by
+  | .time, d, x, hd, _ => by
     cases x <;> simp [inDomain] at hd
     rename_i t
     exact ⟨.str (fromTime Cfg.fixed t), Good.ofAll (by simp [encode])
       (fun m => ⟨.time t, by simp [parse, rt_time P hP t hd.1.1.1 hd.1.1.2 hd.1.2], rfl⟩) (fun _ => rfl) rfl (by simp)⟩
-  | .delta, x, hd, _ => by
+  | .delta, d, x, hd, _ => by
     cases x <;> simp [inDomain] at hd
     rename_i us
     exact ⟨.str (durationIso us), Good.ofAll (by simp [encode])
       (fun m => ⟨.delta us, by simp [parse, rt_delta P hP m us hd], rfl⟩) (fun _ => rfl) rfl (by simp)⟩
-  | .uuid, x, hd, _ => by
+  | .uuid, d, x, hd, _ => by
     cases x <;> simp [inDomain] at hd
     rename_i n
     exact ⟨.str (P.uuidStr n), Good.ofAll (by simp [encode])
       (fun m => ⟨.uuid n, by simp [parse, hP.uuid_rt n hd], rfl⟩) (fun _ => rfl) rfl (by simp)⟩
-  | .enum decl, x, hd, _ => by
+  | .enum decl, d, x, hd, _ => by
     cases x <;> simp [inDomain] at hd
     rename_i decl' i
     obtain ⟨⟨⟨hdecl, hwf⟩, hi⟩, _⟩ := hd
@@ -280,12 +328,12 @@ theorem rt (P : Prims) (hP : PrimLaws P) : (T : Ty) → (x : Val) → inDomain C
     · intro _; cases mem.2 <;> rfl
     · cases mem.2 <;> rfl
     · cases mem.2 <;> simp [EVal.toJson]
-  | .list t, x, hd, hk => by
+  | .list t, d, x, hd, hk => by
     cases x <;> simp [inDomain] at hd
     rename_i xs
     have hk' : t.setOfContainers = false := by simpa [Ty.setOfContainers] using hk
     obtain ⟨js, h1, h2, h4, h5⟩ :=
-      encList_good P t (fun x hx => rt P hP t x hx hk') xs (by simpa using hd)
+      encList_good P d t (fun x hx => rt P hP t d x hx hk') xs (by simpa using hd)
     have hc : ∀ ys, canonList ys = canonList xs → (Val.list ys).canon = (Val.list xs).canon := by
       intro ys h; simp [Val.canon, h]
     refine ⟨.arr js, by simp [encode, h1], ?_, ?_, ?_, by simpa [Val.hasInf, Js.standard] using h4,
@@ -293,12 +341,12 @@ theorem rt (P : Prims) (hP : PrimLaws P) : (T : Ty) → (x : Val) → inDomain C
     · simpa [parse] using wrap_strong Val.list (mapRes_strong _ (h2.imp fun _ _ g => g.2.len)) hc
     · simpa [parse] using wrap_strong Val.list (mapRes_strong _ (h2.imp fun _ _ g => g.2.nol)) hc
     · simpa [parse] using wrap_weak Val.list (mapRes_weak _ (h2.imp fun _ _ g => g.2.str)) hc
-  | .tupleVar t, x, hd, hk => by
+  | .tupleVar t, d, x, hd, hk => by
     cases x <;> simp [inDomain] at hd
     rename_i xs
     have hk' : t.setOfContainers = false := by simpa [Ty.setOfContainers] using hk
     obtain ⟨js, h1, h2, h4, h5⟩ :=
-      encList_good P t (fun x hx => rt P hP t x hx hk') xs (by simpa using hd)
+      encList_good P d t (fun x hx => rt P hP t d x hx hk') xs (by simpa using hd)
     have hc : ∀ ys, canonList ys = canonList xs → (Val.tuple ys).canon = (Val.tuple xs).canon := by
       intro ys h; simp [Val.canon, h]
     refine ⟨.arr js, by simp [encode, h1], ?_, ?_, ?_, by simpa [Val.hasInf, Js.standard] using h4,
@@ -306,13 +354,13 @@ theorem rt (P : Prims) (hP : PrimLaws P) : (T : Ty) → (x : Val) → inDomain C
     · simpa [parse] using wrap_strong Val.tuple (mapRes_strong _ (h2.imp fun _ _ g => g.2.len)) hc
     · simpa [parse] using wrap_strong Val.tuple (mapRes_strong _ (h2.imp fun _ _ g => g.2.nol)) hc
     · simpa [parse] using wrap_weak Val.tuple (mapRes_weak _ (h2.imp fun _ _ g => g.2.str)) hc
-  | .set t, x, hd, hk => by
+  | .set t, d, x, hd, hk => by
     cases x <;> simp [inDomain] at hd
     rename_i xs
     simp only [Ty.setOfContainers, Bool.or_eq_false_iff] at hk
     obtain ⟨js, h1, h2, h4, h5⟩ :=
-      encList_good P t (fun x hx => rt P hP t x hx hk.2) xs (by simpa using hd.1)
-    have hnc : js.any Js.isContainer = false := no_container P t hk.1 h2
+      encList_good P d t (fun x hx => rt P hP t d x hx hk.2) xs (by simpa using hd.1)
+    have hnc : js.any Js.isContainer = false := no_container P d t hk.1 h2
     have e := dedup_of_distinct xs xs rfl hd.2
     have hc : ∀ ys, canonList ys = canonList xs → (Val.set (dedupVals ys)).canon = (Val.set (dedupVals xs)).canon := by
       intro ys h; simp [Val.canon, dedup_of_distinct ys xs h hd.2, e, h]
@@ -324,10 +372,10 @@ theorem rt (P : Prims) (hP : PrimLaws P) : (T : Ty) → (x : Val) → inDomain C
       simpa [parse, hnc, e] using this
     · have := wrap_weak (fun ys => Val.set (dedupVals ys)) (mapRes_weak _ (h2.imp fun _ _ g => g.2.str)) hc
       simpa [parse, hnc, e] using this
-  | .tuple ts, x, hd, hk => by
+  | .tuple ts, d, x, hd, hk => by
     cases x <;> simp [inDomain] at hd
     rename_i xs
-    obtain ⟨js, h1, hl, hn, hs, h4, h5⟩ := rtTuple P hP ts xs hd (by simpa [Ty.setOfContainers] using hk)
+    obtain ⟨js, h1, hl, hn, hs, h4, h5⟩ := rtTuple P hP ts d xs hd (by simpa [Ty.setOfContainers] using hk)
     have hc : ∀ ys, canonList ys = canonList xs → (Val.tuple ys).canon = (Val.tuple xs).canon := by
       intro ys h; simp [Val.canon, h]
     refine ⟨.arr js, by simp [encode, h1], ?_, ?_, ?_, by simpa [Val.hasInf, Js.standard] using h4,
@@ -335,16 +383,16 @@ theorem rt (P : Prims) (hP : PrimLaws P) : (T : Ty) → (x : Val) → inDomain C
     · simpa [parse] using wrap_strong Val.tuple hl hc
     · simpa [parse] using wrap_strong Val.tuple hn hc
     · simpa [parse] using wrap_weak Val.tuple hs hc
-  | .dict k t, x, hd, hk => by
+  | .dict k t, d, x, hd, hk => by
     cases x <;> simp [inDomain] at hd
     rename_i kvs
     have hk' : t.setOfContainers = false := by simpa [Ty.setOfContainers] using hk
-    have hall : kvs.all (fun kv => kv.1.hasTy k && inDomain Cfg.fixed t kv.2) = true := by
+    have hall : kvs.all (fun kv => kv.1.hasTy k && inDomain Cfg.fixed d t kv.2) = true := by
       simp only [List.all_eq_true, Bool.and_eq_true]
       intro kv hkv
       exact hd.1 kv.1 kv.2 hkv
     obtain ⟨js, h1, h2, h5, h6, h7⟩ :=
-      encKVs_good P k t (fun x hx => rt P hP t x hx hk') kvs hall
+      encKVs_good P d k t (fun x hx => rt P hP t d x hx hk') kvs hall
     have hdk : distinct (js.map (·.1)) = true := by
       have e : kvs.map (fun kv => kv.1.toStr) = (kvs.map (·.1)).map Key.toStr := by simp
       rw [h7, e]
@@ -367,57 +415,73 @@ theorem rt (P : Prims) (hP : PrimLaws P) : (T : Ty) → (x : Val) → inDomain C
       · left; simp [parseKey, Key.toStr, rt_intKey_strict]
     refine ⟨.obj js, by simp [encode, h1], ?_, ?_, ?_, by simpa [Val.hasInf, Js.standard] using h5,
       by simp [Js.wf, h6, hdk], by simp⟩
-    · obtain ⟨ys, hy, hcs, _⟩ := parseMap_strong (parseKey .lenient P k) (parse Cfg.fixed P .lenient t)
+    · obtain ⟨ys, hy, hcs, _⟩ := parseMap_strong (parseKey .lenient P k) (parse Cfg.fixed P .lenient d t)
         (h2.imp fun kv sj g => ⟨by rw [g.1]; exact hkey .lenient rfl _ g.2.1, g.2.2.len⟩) hd.2
       exact ⟨.dict ys, by simp [parse, hy], by simp [Val.canon, hcs]⟩
-    · obtain ⟨ys, hy, hcs, _⟩ := parseMap_strong (parseKey .noloss P k) (parse Cfg.fixed P .noloss t)
+    · obtain ⟨ys, hy, hcs, _⟩ := parseMap_strong (parseKey .noloss P k) (parse Cfg.fixed P .noloss d t)
         (h2.imp fun kv sj g => ⟨by rw [g.1]; exact hkey .noloss rfl _ g.2.1, g.2.2.nol⟩) hd.2
       exact ⟨.dict ys, by simp [parse, hy], by simp [Val.canon, hcs]⟩
-    · rcases parseMap_weak (parseKey .strict P k) (parse Cfg.fixed P .strict t)
+    · rcases parseMap_weak (parseKey .strict P k) (parse Cfg.fixed P .strict d t)
         (h2.imp fun kv sj g => ⟨by rw [g.1]; exact hkeyS _ g.2.1, g.2.2.str⟩) hd.2 with hp | ⟨ys, hy, hcs, _⟩
       · left; simp [parse, hp]
       · right; exact ⟨.dict ys, by simp [parse, hy], by simp [Val.canon, hcs]⟩
-  | .data fs, x, hd, hk => by
+  | .data fs o, d, x, hd, hk => by
     cases x <;> simp [inDomain] at hd
     rename_i vs
-    obtain ⟨js, h1, h2, h5, h6, h7⟩ :=
-      rtFields P hP fs vs hd.1 (by simpa [Ty.setOfContainers] using hk)
-    have hdk : distinct (js.map (·.1)) = true := by rw [h2]; exact hd.2
-    obtain ⟨ys, hpar, hcs⟩ := h5 js (fun n j hm => lookup_of_mem_distinct js n j hdk hm)
+    obtain ⟨⟨⟨hdeep, hka⟩, hnames⟩, hdf⟩ := hd
+    have hsub := inDomainFields_sublist (d + 1) fs [] vs hdf
+    obtain ⟨js, h1, h2, hpar, h6, h7⟩ :=
+      rtFields P hP (d + 1) (fs.map (·.1)) o.dataFirst hka fs [] [] vs (fun ft hft => List.mem_map.mpr ⟨ft, hft, rfl⟩) rfl hdf
+        (by simpa [Ty.setOfContainers] using hk)
+        (by
+          have : distinct (fs.map (·.1.name)) = true := hnames
+          exact this)
+    have hvd : distinct (vs.map (·.1)) = true := distinct_of_sublist hsub hnames
+    have hdk : distinct (js.map (·.1)) = true := by rw [h2]; exact hvd
+    obtain ⟨ys, hp, hcs⟩ := hpar js (fun kv h => h)
+      (by
+        intro kv hkv
+        have : kv.1 ∈ vs.map (·.1) := by rw [← h2]; exact List.mem_map.mpr ⟨kv, hkv, rfl⟩
+        have := hsub.subset this
+        obtain ⟨ft, hft, hn⟩ := List.mem_map.mp this
+        exact ⟨ft.1, List.mem_map.mpr ⟨ft, hft, rfl⟩, hn⟩)
+      hdk (by intro ft _ hn; rw [h2]; exact hn)
+    have hnd : tooDeep o (d + 1) = false := by simpa using hdeep
     exact ⟨.obj js, Good.ofAll (by simp [encode, h1])
-      (fun m => ⟨.data ys, by simp [parse, hpar], by simp [Val.canon, hcs]⟩)
+      (fun m => ⟨.data ys, by simp [parse, hnd, hp], by simp [Val.canon, hcs]⟩)
       (by simpa [Val.hasInf, Js.standard] using h6) (by simp [Js.wf, h7, hdk]) (by simp)⟩
-  | .optional t, x, hd, hk => by
+  | .cut, d, x, hd, _ => by simp [inDomain] at hd
+  | .optional t, d, x, hd, hk => by
     simp only [inDomain, Bool.and_eq_true, Bool.or_eq_true] at hd
     have hk' : t.setOfContainers = false := by simpa [Ty.setOfContainers] using hk
     by_cases hx : x = .none
     · subst hx
       exact ⟨.null, Good.ofAll (by simp [encode]) (fun m => ⟨.none, by simp [parse], rfl⟩) (fun _ => rfl) rfl (fun _ => rfl)⟩
-    · have hdx : inDomain Cfg.fixed t x = true := by
+    · have hdx : inDomain Cfg.fixed d t x = true := by
         rcases hd.2 with h | h
         · cases x <;> simp at h
           exact absurd rfl hx
         · exact h
-      obtain ⟨j, g⟩ := rt P hP t x hdx hk'
+      obtain ⟨j, g⟩ := rt P hP t d x hdx hk'
       exact ⟨j, optional_good g hx⟩
-theorem rtTuple (P : Prims) (hP : PrimLaws P) : (ts : List Ty) → (xs : List Val) →
-    inDomainTuple Cfg.fixed ts xs = true → setOfContainersList ts = false →
+theorem rtTuple (P : Prims) (hP : PrimLaws P) : (ts : List Ty) → (d : Nat) → (xs : List Val) →
+    inDomainTuple Cfg.fixed d ts xs = true → setOfContainersList ts = false →
     ∃ js, encodeList Cfg.fixed P xs = .ok js
-      ∧ StrongL (parseTuple Cfg.fixed P .lenient ts js) xs ∧ StrongL (parseTuple Cfg.fixed P .noloss ts js) xs
-      ∧ WeakL (parseTuple Cfg.fixed P .strict ts js) xs
+      ∧ StrongL (parseTuple Cfg.fixed P .lenient d ts js) xs ∧ StrongL (parseTuple Cfg.fixed P .noloss d ts js) xs
+      ∧ WeakL (parseTuple Cfg.fixed P .strict d ts js) xs
       ∧ (hasInfList xs = false → standardList js = true) ∧ wfList js = true
-  | [], xs, hd, _ => by
+  | [], d, xs, hd, _ => by
     cases xs <;> simp [inDomainTuple] at hd
     exact ⟨[], rfl, ⟨[], by simp [parseTuple], rfl⟩, ⟨[], by simp [parseTuple], rfl⟩,
       Or.inr ⟨[], by simp [parseTuple], rfl⟩, fun _ => rfl, rfl⟩
-  | t :: ts, xs, hd, hk => by
+  | t :: ts, d, xs, hd, hk => by
     cases xs with
     | nil => simp [inDomainTuple] at hd
     | cons x xs =>
       simp only [inDomainTuple, Bool.and_eq_true] at hd
       simp only [setOfContainersList, Bool.or_eq_false_iff] at hk
-      obtain ⟨j, g⟩ := rt P hP t x hd.1 hk.1
-      obtain ⟨js, h1, hl, hn, hs, h4, h5⟩ := rtTuple P hP ts xs hd.2 hk.2
+      obtain ⟨j, g⟩ := rt P hP t d x hd.1 hk.1
+      obtain ⟨js, h1, hl, hn, hs, h4, h5⟩ := rtTuple P hP ts d xs hd.2 hk.2
       refine ⟨j :: js, by simp [encodeList, g.enc, h1], ?_, ?_, ?_, ?_, by simp [wfList, g.wf, h5]⟩
       · obtain ⟨y, hy, hc⟩ := g.len
         obtain ⟨ys, hys, hcs⟩ := hl
@@ -433,80 +497,210 @@ theorem rtTuple (P : Prims) (hP : PrimLaws P) : (ts : List Ty) → (xs : List Va
       · intro hi
         simp only [hasInfList, Bool.or_eq_false_iff] at hi
         simp [standardList, g.std hi.1, h4 hi.2]
-theorem rtFields (P : Prims) (hP : PrimLaws P) : (fs : List (Str × Ty)) → (vs : List (Str × Val)) →
-    inDomainFields Cfg.fixed fs vs = true → setOfContainersFields fs = false →
-    ∃ js, encodeFields Cfg.fixed P vs = .ok js ∧ js.map (·.1) = fs.map (·.1)
-      ∧ (∀ all : List (Str × Js), (∀ n j, (n, j) ∈ js → lookup n all = some j) →
-          ∃ ys, parseFields Cfg.fixed P fs all = .ok ys ∧ canonFields ys = canonFields vs)
+theorem rtFields (P : Prims) (hP : PrimLaws P) (d : Nat) (ms : List FieldMeta) (df : Bool)
+    (hka : keysAccepted ms df = true) : (fs : List (FieldMeta × Ty)) → (accX accY : List (Str × Val)) →
+    (vs : List (Str × Val)) → (∀ ft ∈ fs, ft.1 ∈ ms) → canonFields accY = canonFields accX →
+    inDomainFields Cfg.fixed d accX fs vs = true → setOfContainersFields fs = false →
+    distinct (fs.map (·.1.name)) = true →
+    ∃ js, encodeFields Cfg.fixed P vs = .ok js ∧ js.map (·.1) = vs.map (·.1)
+      ∧ (∀ all : List (Str × Js), (∀ kv ∈ js, kv ∈ all) → (∀ kv ∈ all, ∃ g ∈ ms, g.name = kv.1) →
+          distinct (all.map (·.1)) = true →
+          (∀ ft ∈ fs, ft.1.name ∉ vs.map (·.1) → ft.1.name ∉ all.map (·.1)) →
+          ∃ ys, parseFields Cfg.fixed P d ms df accY fs all = .ok ys ∧ canonFields ys = canonFields vs)
       ∧ (hasInfFields vs = false → standardKVs js = true) ∧ wfKVs js = true
-  | [], vs, hd, _ => by
+  | [], accX, accY, vs, _, _, hd, _, _ => by
     cases vs <;> simp [inDomainFields] at hd
-    exact ⟨[], rfl, rfl, fun _ _ => ⟨[], by simp [parseFields], rfl⟩, fun _ => rfl, rfl⟩
-  | (n, t) :: fs, vs, hd, hk => by
-    cases vs with
-    | nil => simp [inDomainFields] at hd
-    | cons v vs =>
-      obtain ⟨n', x⟩ := v
-      simp only [inDomainFields, Bool.and_eq_true, beq_iff_eq] at hd
-      simp only [setOfContainersFields, Bool.or_eq_false_iff] at hk
-      obtain ⟨⟨hn, hdx⟩, hdr⟩ := hd
-      subst hn
-      obtain ⟨j, g⟩ := rt P hP t x hdx hk.1
-      obtain ⟨js, h1, h2, h5, h6, h7⟩ := rtFields P hP fs vs hdr hk.2
-      refine ⟨(n, j) :: js, by simp [encodeFields, g.enc, h1], by simp [h2], ?_, ?_, by simp [wfKVs, g.wf, h7]⟩
-      · intro all hall
-        have hl : lookup n all = some j := hall n j (by simp)
-        obtain ⟨ys, hr, hcs⟩ := h5 all (fun n' j' hm => hall n' j' (by simp [hm]))
-        obtain ⟨y, hy, hc⟩ := g.len
-        exact ⟨(n, y) :: ys, by simp [parseFields, hl, hy, hr], by simp [canonFields, hc, hcs]⟩
-      · intro hi
-        simp only [hasInfFields, Bool.or_eq_false_iff] at hi
-        simp [standardKVs, g.std hi.1, h6 hi.2]
+    exact ⟨[], rfl, rfl, fun _ _ _ _ _ => ⟨[], by simp [parseFields], rfl⟩, fun _ => rfl, rfl⟩
+  | (f, t) :: fs, accX, accY, vs, hms, hacc, hd, hk, hdn => by
+    have hf : f ∈ ms := hms (f, t) (by simp)
+    have hms' : ∀ ft ∈ fs, ft.1 ∈ ms := fun ft h => hms ft (by simp [h])
+    simp only [setOfContainersFields, Bool.or_eq_false_iff] at hk
+    have hdn' : distinct (fs.map (·.1.name)) = true := by
+      simp only [List.map_cons, distinct, Bool.and_eq_true] at hdn; exact hdn.2
+    have hfresh : f.name ∉ fs.map (·.1.name) := by
+      simp only [List.map_cons, distinct, Bool.and_eq_true] at hdn
+      intro h
+      have : (fs.map (·.1.name)).contains f.name = true := by simpa using h
+      rw [this] at hdn; simp at hdn
+    -- the condition on the fields that are not written passes to the remaining fields
+    have htail : ∀ (x : Val) (vs' : List (Str × Val)) (all : List (Str × Js)),
+        (∀ ft ∈ (f, t) :: fs, ft.1.name ∉ ((f.name, x) :: vs').map (·.1) → ft.1.name ∉ all.map (·.1)) →
+        ∀ ft ∈ fs, ft.1.name ∉ vs'.map (·.1) → ft.1.name ∉ all.map (·.1) := by
+      intro x vs' all h ft hft hn
+      apply h ft (by simp [hft])
+      simp only [List.map_cons, List.mem_cons, not_or]
+      refine ⟨?_, hn⟩
+      intro e
+      exact hfresh (e ▸ List.mem_map.mpr ⟨ft, hft, rfl⟩)
+    unfold inDomainFields at hd
+    cases hkind : f.kind with
+    | noOutput =>
+      simp only [hkind] at hd
+      obtain ⟨js, h1, h2, hpar, h6, h7⟩ := rtFields P hP d ms df hka fs accX accY vs hms' hacc hd hk.2 hdn'
+      refine ⟨js, h1, h2, ?_, h6, h7⟩
+      intro all hsub hkeys hdist hall
+      have hnv : f.name ∉ vs.map (·.1) := fun h => hfresh ((inDomainFields_sublist d fs accX vs hd).subset h)
+      have hab := findValue_absent ms df hka all hkeys f hf (hall (f, t) (by simp) hnv)
+      obtain ⟨ys, hp, hcs⟩ := hpar all hsub hkeys hdist (fun ft hft hn => hall ft (by simp [hft]) hn)
+      exact ⟨ys, by simp [parseFields, hkind, hab, hp], hcs⟩
+    | noInput dflt =>
+      simp only [hkind] at hd
+      cases vs with
+      | nil => simp at hd
+      | cons v vs =>
+        obtain ⟨n, x⟩ := v
+        simp only [Bool.and_eq_true, beq_iff_eq] at hd
+        obtain ⟨⟨hn, hx⟩, hdr⟩ := hd
+        subst hn
+        have hxv : x = dflt.toVal := beq_lit hx
+        subst hxv
+        obtain ⟨js, h1, h2, hpar, h6, h7⟩ := rtFields P hP d ms df hka fs ((f.name, dflt.toVal) :: accX)
+          ((f.name, dflt.toVal) :: accY) vs hms' (by simp [canonFields, hacc]) hdr hk.2 hdn'
+        have henc : ∃ j, encode Cfg.fixed P dflt.toVal = .ok j ∧ j.standard = true ∧ j.wf = true := by
+          cases dflt with
+          | none => exact ⟨.null, by simp [Lit.toVal, encode], rfl, rfl⟩
+          | bool b => exact ⟨.bool b, by simp [Lit.toVal, encode], rfl, rfl⟩
+          | int i => exact ⟨.int i, by simp [Lit.toVal, encode], rfl, rfl⟩
+          | str s => exact ⟨.str s, by simp [Lit.toVal, encode], rfl, rfl⟩
+        obtain ⟨j, hj, hjs, hjw⟩ := henc
+        refine ⟨(f.name, j) :: js, by simp [encodeFields, hj, h1], by simp [h2], ?_, ?_, by simp [wfKVs, hjw, h7]⟩
+        · intro all hsub hkeys hdist hall
+          obtain ⟨ys, hp, hcs⟩ := hpar all (fun kv h => hsub kv (by simp [h])) hkeys hdist (htail _ vs all hall)
+          exact ⟨(f.name, dflt.toVal) :: ys, by simp [parseFields, hkind, hp], by simp [canonFields, hcs]⟩
+        · intro hi
+          simp only [hasInfFields, Bool.or_eq_false_iff] at hi
+          simp [standardKVs, hjs, h6 hi.2]
+    | prop e =>
+      simp only [hkind] at hd
+      cases vs with
+      | nil => simp at hd
+      | cons v vs =>
+        obtain ⟨n, x⟩ := v
+        simp only [Bool.and_eq_true, beq_iff_eq] at hd
+        obtain ⟨⟨hn, hx⟩, hdr⟩ := hd
+        subst hn
+        cases hev : evalProp accX e with
+        | none => simp [hev] at hx
+        | some v =>
+          simp only [hev] at hx
+          have hxv : x = v := by
+            rcases evalProp_scalar hev with ⟨i, rfl⟩ | ⟨s, rfl⟩
+            · exact beq_int hx
+            · exact beq_str hx
+          subst hxv
+          have hevY : evalProp accY e = some x := by rw [evalProp_canon e accY accX hacc]; exact hev
+          obtain ⟨js, h1, h2, hpar, h6, h7⟩ := rtFields P hP d ms df hka fs ((f.name, x) :: accX)
+            ((f.name, x) :: accY) vs hms' (by simp [canonFields, hacc]) hdr hk.2 hdn'
+          have henc : ∃ j, encode Cfg.fixed P x = .ok j ∧ j.standard = true ∧ j.wf = true := by
+            rcases evalProp_scalar hev with ⟨i, rfl⟩ | ⟨s, rfl⟩
+            · exact ⟨.int i, by simp [encode], rfl, rfl⟩
+            · exact ⟨.str s, by simp [encode], rfl, rfl⟩
+          obtain ⟨j, hj, hjs, hjw⟩ := henc
+          refine ⟨(f.name, j) :: js, by simp [encodeFields, hj, h1], by simp [h2], ?_, ?_, by simp [wfKVs, hjw, h7]⟩
+          · intro all hsub hkeys hdist hall
+            obtain ⟨ys, hp, hcs⟩ := hpar all (fun kv h => hsub kv (by simp [h])) hkeys hdist (htail _ vs all hall)
+            exact ⟨(f.name, x) :: ys, by simp [parseFields, hkind, hevY, hp], by simp [canonFields, hcs]⟩
+          · intro hi
+            simp only [hasInfFields, Bool.or_eq_false_iff] at hi
+            simp [standardKVs, hjs, h6 hi.2]
+    | input req dflt =>
+      simp only [hkind] at hd
+      -- the field is written (its item is the next one) or it is an optional field that was not given
+      have hskip : ∀ (vs : List (Str × Val)), (!req && dflt.isNone && inDomainFields Cfg.fixed d accX fs vs) = true →
+          f.name ∉ vs.map (·.1) →
+          ∃ js, encodeFields Cfg.fixed P vs = .ok js ∧ js.map (·.1) = vs.map (·.1)
+            ∧ (∀ all : List (Str × Js), (∀ kv ∈ js, kv ∈ all) → (∀ kv ∈ all, ∃ g ∈ ms, g.name = kv.1) →
+                distinct (all.map (·.1)) = true →
+                (∀ ft ∈ (f, t) :: fs, ft.1.name ∉ vs.map (·.1) → ft.1.name ∉ all.map (·.1)) →
+                ∃ ys, parseFields Cfg.fixed P d ms df accY ((f, t) :: fs) all = .ok ys ∧ canonFields ys = canonFields vs)
+            ∧ (hasInfFields vs = false → standardKVs js = true) ∧ wfKVs js = true := by
+        intro vs h hnv
+        simp only [Bool.and_eq_true, Bool.not_eq_eq_eq_not, Bool.not_true] at h
+        obtain ⟨⟨hreq, hdf⟩, hdr⟩ := h
+        have hdnone : dflt = none := by cases dflt <;> simp_all
+        obtain ⟨js, h1, h2, hpar, h6, h7⟩ := rtFields P hP d ms df hka fs accX accY vs hms' hacc hdr hk.2 hdn'
+        refine ⟨js, h1, h2, ?_, h6, h7⟩
+        intro all hsub hkeys hdist hall
+        have hab := findValue_absent ms df hka all hkeys f hf (hall (f, t) (by simp) hnv)
+        obtain ⟨ys, hp, hcs⟩ := hpar all hsub hkeys hdist (fun ft hft hn => hall ft (by simp [hft]) hn)
+        exact ⟨ys, by simp [parseFields, hkind, hab, hreq, hdnone, hp], hcs⟩
+      cases vs with
+      | nil => exact hskip [] (by simpa using hd) (by simp)
+      | cons v vs =>
+        obtain ⟨n, x⟩ := v
+        by_cases hn : (n == f.name) = true
+        · simp only [hn, ↓reduceIte, Bool.and_eq_true] at hd
+          have e : n = f.name := by simpa using hn
+          subst e
+          obtain ⟨j, g⟩ := rt P hP t d x hd.1 hk.1
+          obtain ⟨y, hy, hc⟩ := g.len
+          obtain ⟨js, h1, h2, hpar, h6, h7⟩ := rtFields P hP d ms df hka fs ((f.name, x) :: accX)
+            ((f.name, y) :: accY) vs hms' (by simp [canonFields, hacc, hc]) hd.2 hk.2 hdn'
+          refine ⟨(f.name, j) :: js, by simp [encodeFields, g.enc, h1], by simp [h2], ?_, ?_, by simp [wfKVs, g.wf, h7]⟩
+          · intro all hsub hkeys hdist hall
+            have hone := findValue_present ms df hka all hkeys hdist f hf j (hsub _ (by simp))
+            obtain ⟨ys, hp, hcs⟩ := hpar all (fun kv h => hsub kv (by simp [h])) hkeys hdist (htail _ vs all hall)
+            exact ⟨(f.name, y) :: ys, by simp [parseFields, hkind, hone, hy, hp], by simp [canonFields, hc, hcs]⟩
+          · intro hi
+            simp only [hasInfFields, Bool.or_eq_false_iff] at hi
+            simp [standardKVs, g.std hi.1, h6 hi.2]
+        · simp only [hn, Bool.false_eq_true, ↓reduceIte] at hd
+          have hdr : inDomainFields Cfg.fixed d accX fs ((n, x) :: vs) = true := by
+            simp only [Bool.and_eq_true] at hd; exact hd.2
+          exact hskip ((n, x) :: vs) hd
+            (fun h => hfresh ((inDomainFields_sublist d fs accX _ hdr).subset h))
 end
+
+
 
 /-! ### the property -/
 
 /-- **Round trip** (tree level).  Full statement: for every lawful `P`, declared type `T` and in-domain
 instance `x`: `encode x = ok j`, `parse T j = ok y`, `y == x`.  Partial: `T` has no `Set[<container>]`
-(known finding `set-of-tuples-unhashable`, see `C14_set_of_tuples_witness`). -/
+(known finding `set-of-tuples-unhashable`, see `C14_set_of_tuples_witness`).  `inDomain` asks of a data class
+declaration exactly `keysAccepted` (every output name is taken by its own field and no other, under the class's
+lookup strategy), distinct output names and the depth limit; of an instance that it is in the state the public API
+leaves it in (output properties computed from the current values). -/
 theorem C14_roundtrip_partial (P : Prims) (hP : PrimLaws P) (T : Ty) (x : Val)
-    (hd : inDomain Cfg.fixed T x = true) (hk : T.setOfContainers = false) :
-    ∃ j y, encode Cfg.fixed P x = .ok j ∧ parse Cfg.fixed P .lenient T j = .ok y ∧ y.canon = x.canon := by
-  obtain ⟨j, g⟩ := rt P hP T x hd hk
+    (hd : inDomain Cfg.fixed 0 T x = true) (hk : T.setOfContainers = false) :
+    ∃ j y, encode Cfg.fixed P x = .ok j ∧ parse Cfg.fixed P .lenient 0 T j = .ok y ∧ y.canon = x.canon := by
+  obtain ⟨j, g⟩ := rt P hP T 0 x hd hk
   obtain ⟨y, hy, hc⟩ := g.len
   exact ⟨j, y, g.enc, hy, hc⟩
 
 /-- **Round trip through the text**: `Cls.__from__(json.dumps(inst, cls=JSONEncoder))` equals `inst` for every
-data class `fs` — the JSON text layer is `P.jsonDumps` / `P.jsonLoads` under the law `json_rt`. -/
-theorem C14_roundtrip_text_partial (P : Prims) (hP : PrimLaws P) (fs : List (Str × Ty)) (x : Val)
-    (hd : inDomain Cfg.fixed (.data fs) x = true) (hk : (Ty.data fs).setOfContainers = false) :
-    ∃ j y, encode Cfg.fixed P x = .ok j ∧ parseText Cfg.fixed P fs (P.jsonDumps j) = .ok y ∧ y.canon = x.canon := by
-  obtain ⟨j, g⟩ := rt P hP (.data fs) x hd hk
+data class — with aliases, generated aliases, case-insensitive fields, either lookup strategy, defaults, optional /
+no_output / no_input fields, output properties, `max_depth` — the JSON text layer is `P.jsonDumps` / `P.jsonLoads`
+under the law `json_rt`. -/
+theorem C14_roundtrip_text_partial (P : Prims) (hP : PrimLaws P) (fs : List (FieldMeta × Ty)) (o : ClassOpts) (x : Val)
+    (hd : inDomain Cfg.fixed 0 (.data fs o) x = true) (hk : (Ty.data fs o).setOfContainers = false) :
+    ∃ j y, encode Cfg.fixed P x = .ok j ∧ parseText Cfg.fixed P fs o (P.jsonDumps j) = .ok y ∧ y.canon = x.canon := by
+  obtain ⟨j, g⟩ := rt P hP (.data fs o) 0 x hd hk
   obtain ⟨y, hy, hc⟩ := g.len
   exact ⟨j, y, g.enc, by simp [parseText, hP.json_rt j g.wf, hy], hc⟩
 
 /-- the same value comes back under every converter preference an enclosing `Optional[...]` / union stage can
-impose, or the stage refuses (then a later stage takes over) — never a different value -/
-theorem C14_roundtrip_modes_partial (P : Prims) (hP : PrimLaws P) (T : Ty) (x : Val) (m : Mode)
-    (hd : inDomain Cfg.fixed T x = true) (hk : T.setOfContainers = false) :
+impose and at every nesting depth, or the stage refuses (then a later stage takes over) — never a different value -/
+theorem C14_roundtrip_modes_partial (P : Prims) (hP : PrimLaws P) (T : Ty) (d : Nat) (x : Val) (m : Mode)
+    (hd : inDomain Cfg.fixed d T x = true) (hk : T.setOfContainers = false) :
     ∃ j, encode Cfg.fixed P x = .ok j ∧
-      (parse Cfg.fixed P m T j = .perr ∨ ∃ y, parse Cfg.fixed P m T j = .ok y ∧ y.canon = x.canon) := by
-  obtain ⟨j, g⟩ := rt P hP T x hd hk
+      (parse Cfg.fixed P m d T j = .perr ∨ ∃ y, parse Cfg.fixed P m d T j = .ok y ∧ y.canon = x.canon) := by
+  obtain ⟨j, g⟩ := rt P hP T d x hd hk
   exact ⟨j, g.enc, g.mode m⟩
 
 /-- **Encoding succeeds** on the whole domain (no exclusion). -/
 theorem C14_encode_succeeds (P : Prims) (hP : PrimLaws P) (T : Ty) (x : Val)
-    (hd : inDomain Cfg.fixed T x = true) (hk : T.setOfContainers = false) :
+    (hd : inDomain Cfg.fixed 0 T x = true) (hk : T.setOfContainers = false) :
     ∃ j, encode Cfg.fixed P x = .ok j ∧ j.wf = true := by
-  obtain ⟨j, g⟩ := rt P hP T x hd hk
+  obtain ⟨j, g⟩ := rt P hP T 0 x hd hk
   exact ⟨j, g.enc, g.wf⟩
 
 /-- **Standard JSON**.  Full statement: the encoded tree of every in-domain instance has only finite numbers.
 Partial: the instance holds no infinite float (known finding `float-inf-nonstandard-json`). -/
 theorem C14_standard_partial (P : Prims) (hP : PrimLaws P) (T : Ty) (x : Val)
-    (hd : inDomain Cfg.fixed T x = true) (hk : T.setOfContainers = false) (hi : x.hasInf = false) :
+    (hd : inDomain Cfg.fixed 0 T x = true) (hk : T.setOfContainers = false) (hi : x.hasInf = false) :
     ∃ j, encode Cfg.fixed P x = .ok j ∧ j.standard = true := by
-  obtain ⟨j, g⟩ := rt P hP T x hd hk
+  obtain ⟨j, g⟩ := rt P hP T 0 x hd hk
   exact ⟨j, g.enc, g.std hi⟩
 
 /-! ### the exclusions are real (negations with witnesses), for every `P` -/
@@ -515,19 +709,19 @@ theorem C14_standard_partial (P : Prims) (hP : PrimLaws P) (T : Ty) (x : Val)
 theorem C14_set_of_tuples_witness (P : Prims) :
     let T := Ty.set (.tuple [.int, .int])
     let x := Val.set [.tuple [.int 1, .int 2]]
-    inDomain Cfg.fixed T x = true ∧ T.setOfContainers = true
+    inDomain Cfg.fixed 0 T x = true ∧ T.setOfContainers = true
       ∧ encode Cfg.fixed P x = .ok (.arr [.arr [.int 1, .int 2]])
-      ∧ parse Cfg.fixed P .lenient T (.arr [.arr [.int 1, .int 2]]) = .perr := by
+      ∧ parse Cfg.fixed P .lenient 0 T (.arr [.arr [.int 1, .int 2]]) = .perr := by
   refine ⟨by decide, by decide, ?_, ?_⟩
   · simp [encode, encodeList]
   · simp [parse, Js.isContainer]
 
 /-- `float('inf')` is in the domain (a float that is not NaN), round-trips, but its encoding is not standard JSON. -/
 theorem C14_inf_not_standard_witness (P : Prims) :
-    inDomain Cfg.fixed .float (.float (.inf false)) = true
+    inDomain Cfg.fixed 0 .float (.float (.inf false)) = true
       ∧ encode Cfg.fixed P (.float (.inf false)) = .ok (.float (.inf false))
       ∧ (Js.float (.inf false)).standard = false
-      ∧ parse Cfg.fixed P .lenient .float (.float (.inf false)) = .ok (.float (.inf false)) := by
+      ∧ parse Cfg.fixed P .lenient 0 .float (.float (.inf false)) = .ok (.float (.inf false)) := by
   refine ⟨by decide, ?_, by decide, ?_⟩
   · simp [encode]
   · simp [parse]
@@ -539,8 +733,8 @@ def shadowEnum : EnumDecl := ⟨.none, [("A".toList, .str "B".toList), ("B".toLi
 /-- `class E(Enum): A = 'B'; B = 'C'` — before the repair `E.A` came back as `E.B`; after it as `E.A`. -/
 theorem C14_enum_shadow_legacy_witness (P : Prims) :
     encode Cfg.legacy P (.enum shadowEnum 0) = .ok (.str "B".toList)
-      ∧ parse Cfg.legacy P .lenient (.enum shadowEnum) (.str "B".toList) = .ok (.enum shadowEnum 1)
-      ∧ parse Cfg.fixed P .lenient (.enum shadowEnum) (.str "B".toList) = .ok (.enum shadowEnum 0) := by
+      ∧ parse Cfg.legacy P .lenient 0 (.enum shadowEnum) (.str "B".toList) = .ok (.enum shadowEnum 1)
+      ∧ parse Cfg.fixed P .lenient 0 (.enum shadowEnum) (.str "B".toList) = .ok (.enum shadowEnum 0) := by
   refine ⟨?_, ?_, ?_⟩
   · simp [encode, shadowEnum, EVal.toJson]
   · simp [parse, toEnum, shadowEnum, findIdx?, Cfg.legacy, Mode.noExplicitCast, Mode.noDataLoss]
@@ -550,7 +744,7 @@ theorem C14_enum_shadow_legacy_witness (P : Prims) :
 value came back as `Decimal('0')`; the repaired encoder writes the string `str(d)`. -/
 theorem C14_dec_tiny_legacy_witness (P : Prims) (h0 : (P.floatOfDec (.fin false 1 (-400))).isZero = true) :
     ∃ j, encode Cfg.legacy P (.dec (.fin false 1 (-400))) = .ok j
-      ∧ parse Cfg.legacy P .lenient .dec j = .ok (.dec (.fin false 0 0))
+      ∧ parse Cfg.legacy P .lenient 0 .dec j = .ok (.dec (.fin false 0 0))
       ∧ (Val.dec (.fin false 0 0)).canon ≠ (Val.dec (.fin false 1 (-400))).canon
       ∧ encode Cfg.fixed P (.dec (.fin false 1 (-400))) = .ok (.str (P.decStr (.fin false 1 (-400)))) := by
   have hu : jsUnsafe 1 (-400) = false := by decide +kernel
@@ -574,8 +768,8 @@ def nyWinter : DateTime := ⟨⟨2020, 1, 2⟩, ⟨3, 4, 5, 0⟩, some (-1800000
 /-- a datetime with a negative UTC offset: `invalid datetime` before the repair (`'+' in data` was the only
 offset detector), parsed back after it (concrete builtins `P0`). -/
 theorem C14_negative_offset_legacy_witness :
-    (parse Cfg.legacy P0 .lenient .datetime (.str (isoDateTime nyWinter))).isPerr = true
-      ∧ (parse Cfg.fixed P0 .lenient .datetime (.str (isoDateTime nyWinter))).isOkWith (fun y => y.beq (.datetime nyWinter)) = true := by
+    (parse Cfg.legacy P0 .lenient 0 .datetime (.str (isoDateTime nyWinter))).isPerr = true
+      ∧ (parse Cfg.fixed P0 .lenient 0 .datetime (.str (isoDateTime nyWinter))).isOkWith (fun y => y.beq (.datetime nyWinter)) = true := by
   constructor <;> decide +kernel
 
 def teaTime : TimeV := ⟨⟨3, 4, 5, 123000⟩, some 7200000000⟩                     -- 03:04:05.123+02:00
@@ -583,10 +777,72 @@ def teaTime : TimeV := ⟨⟨3, 4, 5, 123000⟩, some 7200000000⟩             
 /-- an aware time with milliseconds: the old `r[:12]` cut the offset off, so the value came back naive. -/
 theorem C14_time_tz_legacy_witness :
     fromTime Cfg.legacy teaTime = "03:04:05.123".toList
-      ∧ (parse Cfg.legacy P0 .lenient .time (.str (fromTime Cfg.legacy teaTime))).isOkWith
+      ∧ (parse Cfg.legacy P0 .lenient 0 .time (.str (fromTime Cfg.legacy teaTime))).isOkWith
           (fun y => y.beq (.time ⟨teaTime.clock, none⟩)) = true
-      ∧ (parse Cfg.fixed P0 .lenient .time (.str (fromTime Cfg.fixed teaTime))).isOkWith (fun y => y.beq (.time teaTime)) = true := by
+      ∧ (parse Cfg.fixed P0 .lenient 0 .time (.str (fromTime Cfg.fixed teaTime))).isOkWith (fun y => y.beq (.time teaTime)) = true := by
   refine ⟨by decide +kernel, by decide +kernel, by decide +kernel⟩
+
+/-! ### what the round trip needs from a declaration, and that the alias / case model provides it -/
+
+/-- data-first search looks a key up among the output names first (`fields[key]`, base.py:142-143): every
+declaration resolves its own output names — nothing is needed beyond distinct names. -/
+theorem C14_keys_accepted_data_first (ms : List FieldMeta) : keysAccepted ms true = true := by
+  simp only [keysAccepted, List.all_eq_true]
+  intro f _ g hg
+  have hfind : ∃ g', ms.find? (fun h => h.name == g.name) = some g' ∧ g'.name = g.name := by
+    cases hq : ms.find? (fun h => h.name == g.name) with
+    | none =>
+      have := List.find?_eq_none.mp hq g hg
+      simp at this
+    | some g' =>
+      have := List.find?_some hq
+      exact ⟨g', rfl, by simpa using this⟩
+  obtain ⟨g', hq, hn⟩ := hfind
+  simp only [takes, ↓reduceIte, getField, getFieldExact, hq, Option.map_some, hn]
+  by_cases h : f.name = g.name
+  · simp [h]
+  · have h' : ¬ g.name = f.name := fun e => h e.symm
+    have e1 : (g.name == f.name) = false := by simpa using h'
+    have e2 : (f.name == g.name) = false := by simpa using h
+    simp [e1, e2]
+
+/-- field-first search: a field takes its own output name when the name is the first of its accepted keys and the
+field is case-insensitive, or the name has no upper-case letter, or no case-insensitive field accepts its lower-case
+form (what `generate_aliases` enforces, base.py:316-332) -/
+theorem C14_own_key_accepted (ms : List FieldMeta) (f : FieldMeta) (hf : f ∈ ms) (hname : f.name ∈ f.keys)
+    (h : f.ci = true ∨ lower f.name = f.name ∨ (ciNames ms).contains (lower f.name) = false) :
+    acceptsFF (ciNames ms) f f.name = true := by
+  unfold acceptsFF normKey FieldMeta.aliases
+  by_cases hci : f.ci = true
+  · have hmem : lower f.name ∈ ciNames ms := by
+      unfold ciNames
+      rw [List.mem_flatMap]
+      exact ⟨f, hf, by simp [hci]; exact ⟨f.name, hname, rfl⟩⟩
+    have : (ciNames ms).contains (lower f.name) = true := by simpa using hmem
+    simp only [this, ↓reduceIte, hci]
+    simpa using (List.mem_map.mpr ⟨f.name, hname, rfl⟩ : lower f.name ∈ f.keys.map lower)
+  · have hci' : f.ci = false := by simpa using hci
+    simp only [hci', Bool.false_eq_true, ↓reduceIte]
+    rcases h with h | h | h
+    · exact absurd h hci
+    · split
+      · rw [h]; simpa using hname
+      · simpa using hname
+    · simp only [h, Bool.false_eq_true, ↓reduceIte]; simpa using hname
+
+/-- field-first search: `keysAccepted` is "every field takes its own output name and nobody else's" -/
+theorem C14_keys_accepted_field_first (ms : List FieldMeta)
+    (hown : ∀ f ∈ ms, acceptsFF (ciNames ms) f f.name = true)
+    (hother : ∀ f ∈ ms, ∀ g ∈ ms, f.name ≠ g.name → acceptsFF (ciNames ms) f g.name = false) :
+    keysAccepted ms false = true := by
+  simp only [keysAccepted, List.all_eq_true]
+  intro f hf g hg
+  simp only [takes, Bool.false_eq_true, ↓reduceIte]
+  by_cases h : f.name = g.name
+  · have := hown f hf
+    rw [h] at this
+    simp [this, h]
+  · simp [hother f hf g hg h, h]
 
 /-! ### non-vacuity -/
 
@@ -594,21 +850,55 @@ theorem C14_time_tz_legacy_witness :
 theorem C14_primlaws_P0 : PrimLaws P0 := primLaws_P0
 
 /-- … so the round trip holds outright for the concrete builtins -/
-theorem C14_roundtrip_P0 (fs : List (Str × Ty)) (x : Val)
-    (hd : inDomain Cfg.fixed (.data fs) x = true) (hk : (Ty.data fs).setOfContainers = false) :
-    ∃ j y, encode Cfg.fixed P0 x = .ok j ∧ parseText Cfg.fixed P0 fs (P0.jsonDumps j) = .ok y ∧ y.canon = x.canon :=
-  C14_roundtrip_text_partial P0 primLaws_P0 fs x hd hk
+theorem C14_roundtrip_P0 (fs : List (FieldMeta × Ty)) (o : ClassOpts) (x : Val)
+    (hd : inDomain Cfg.fixed 0 (.data fs o) x = true) (hk : (Ty.data fs o).setOfContainers = false) :
+    ∃ j y, encode Cfg.fixed P0 x = .ok j ∧ parseText Cfg.fixed P0 fs o (P0.jsonDumps j) = .ok y ∧ y.canon = x.canon :=
+  C14_roundtrip_text_partial P0 primLaws_P0 fs o x hd hk
+
+def plain (n : String) : FieldMeta := ⟨n.toList, [n.toList], false, .input true none⟩
 
 /-- … and the domain is inhabited by an instance with a negative offset, a negative microsecond duration,
-a tiny Decimal, an aware millisecond time, an enum whose value is another member's name, nested in containers -/
-example : ∃ fs x, inDomain Cfg.fixed (.data fs) x = true ∧ (Ty.data fs).setOfContainers = false ∧ x.hasInf = false :=
-  ⟨[("a".toList, .datetime), ("b".toList, .list .delta), ("c".toList, .dict .int .dec), ("d".toList, .set .time),
-    ("e".toList, .tuple [.enum shadowEnum, .data [("n".toList, .none)]]),
-    ("o".toList, .optional (.dict .int (.optional .dec))), ("p".toList, .optional .date)],
+a tiny Decimal, an aware millisecond time, an enum whose value is another member's name, Optional fields, nested in
+containers -/
+example : ∃ fs o x, inDomain Cfg.fixed 0 (.data fs o) x = true ∧ (Ty.data fs o).setOfContainers = false ∧ x.hasInf = false :=
+  ⟨[(plain "a", .datetime), (plain "b", .list .delta), (plain "c", .dict .int .dec), (plain "d", .set .time),
+    (plain "e", .tuple [.enum shadowEnum, .data [(plain "n", .none)] ⟨none, false⟩]),
+    (plain "o", .optional (.dict .int (.optional .dec))), (plain "p", .optional .date)], ⟨none, false⟩,
    .data [("a".toList, .datetime nyWinter), ("b".toList, .list [.delta (-90061000005)]),
     ("c".toList, .dict [(.int (-7), .dec (.fin false 1 (-400)))]), ("d".toList, .set [.time teaTime]),
     ("e".toList, .tuple [.enum shadowEnum 0, .data [("n".toList, .none)]]),
     ("o".toList, .dict [(.int 1, .dec (.fin true 0 (-1))), (.int 0, .none)]), ("p".toList, .none)],
    by decide +kernel, by decide +kernel, by decide +kernel⟩
+
+/-- a declaration in the manner of the missed seeds: generated camelCase names, one case-insensitive field with an
+extra key, a case-sensitive field with capitals, an optional field that is not given, a no_output field, a no_input
+field, an output property over two fields, `max_depth=3` with a self-reference two levels deep; both lookup strategies -/
+def orderFields (inner : Ty) : List (FieldMeta × Ty) :=
+  [(⟨"requestId".toList, ["requestId".toList, "request_id".toList, "x-request".toList], true, .input true none⟩, .uuid),
+   (⟨"createdAt".toList, ["createdAt".toList, "created_at".toList], false, .input true none⟩, .datetime),
+   (⟨"price".toList, ["price".toList], false, .input true none⟩, .int),
+   (⟨"quantity".toList, ["quantity".toList], false, .input false (some (.int 1))⟩, .int),
+   (⟨"note".toList, ["note".toList], false, .input false none⟩, .str),
+   (⟨"secret".toList, ["secret".toList], false, .noOutput⟩, .str),
+   (⟨"version".toList, ["version".toList], false, .noInput (.int 3)⟩, .int),
+   (⟨"grandTotal".toList, ["grandTotal".toList, "total".toList], false, .prop (.sumInt ["price".toList, "quantity".toList])⟩, .int),
+   (⟨"inReplyTo".toList, ["inReplyTo".toList, "in_reply_to".toList], false, .input false (some .none)⟩, .optional inner)]
+
+def orderItems (price qty : Int) (parent : Val) : Val :=
+  .data [("requestId".toList, .uuid 7), ("createdAt".toList, .datetime nyWinter), ("price".toList, .int price),
+    ("quantity".toList, .int qty), ("version".toList, .int 3), ("grandTotal".toList, .int (price + qty)),
+    ("inReplyTo".toList, parent)]
+
+example : ∀ df : Bool,
+    inDomain Cfg.fixed 0 (.data (orderFields (.data (orderFields .cut) ⟨some 3, df⟩)) ⟨some 3, df⟩)
+      (orderItems 5 2 (orderItems 1 1 .none)) = true := by
+  intro df; cases df <;> decide +kernel
+
+/-- … and `keysAccepted` is a real requirement: a field whose extra key is another field's output name takes that
+field's member as well, and the model of the field-first search no longer finds one value per field -/
+theorem C14_keys_not_accepted_witness :
+    let ms : List FieldMeta := [⟨"a".toList, ["a".toList, "b".toList], false, .input true none⟩, plain "b"]
+    keysAccepted ms false = false ∧ keysAccepted ms true = true := by
+  constructor <;> decide +kernel
 
 end Utv.C14
